@@ -18,6 +18,7 @@ from harness.common import sexp
 from harness.common.ctx import Timeout, time_limit
 
 EXE = "c05_model"
+LEAN_MODULES = ["Holpy.C05.Props", "Holpy.C05.PropsNorm"]
 
 # ---------------------------------------------------------------------------------------------
 # 1. macro table (Gen.lean)
@@ -351,6 +352,10 @@ def to_wire(t, atoms):
             return [w, ty_tag(poly(2, True)), to_wire(args[0], atoms), to_wire(args[1], atoms)]
         if n == 1 and nm == "neg" and HT == ht.TFun(B, B):
             return ["neg", to_wire(args[0], atoms)]
+        if n == 1 and nm in WIRE_FNS and HT == ht.TFun(R, R):
+            return ["fn", nm, to_wire(args[0], atoms)]
+        if n == 0 and nm == "pi" and HT == R:
+            return "pi"
     try:
         T = ty_tag(t.get_type())
     except Exception:  # noqa
@@ -788,8 +793,10 @@ def compare(nm, a, b):
 # 4. the steps under test
 # ---------------------------------------------------------------------------------------------
 MODELLED = ["nat_eval", "int_eval", "int_const_ineq", "real_eval", "real_const_eq", "real_compare",
-            "real_const_ineq", "const_inequality"]
-ORACLE_ONLY = ["real_norm", "real_eq_comparison"]
+            "real_const_ineq", "const_inequality", "real_norm"]
+ORACLE_ONLY = ["real_eq_comparison"]
+ATOM_MODE = ["real_norm", "real_eq_comparison"]      # steps that legitimately treat unknown subterms as indeterminates
+WIRE_FNS = ("sqrt", "sin", "cos", "tan", "cot", "sec", "csc", "log", "exp", "abs", "atn")
 BRIDGES = ["z3", "sympy", "simplex_macro", "integer_simplex", "verit_imp_conj"]     # C06 / C16 / C18
 
 # which type the compared terms must have for the step to be *meant* for the goal
@@ -858,7 +865,7 @@ def judge(ctx, macro, tree, goal, th, envs=None):
         return "viol"
     # (b) truth
     vars_ = stmt.get_vars()
-    atom_mode = macro in ORACLE_ONLY
+    atom_mode = macro in ATOM_MODE
     try:
         if not vars_ and not atom_mode:
             v = sem(stmt)
@@ -2175,9 +2182,9 @@ def run(ctx):
         rows = []
         ctx.broken("translate:c05:macro-table", "untranslatable: %r" % e)
     K.load()
-    proofs_ok = ctx.lean_props(["Holpy.C05.Props"], exes=[EXE])
+    proofs_ok = ctx.lean_props(LEAN_MODULES, exes=[EXE])
     if ctx.tier == "thorough" and proofs_ok:
-        ctx.lean_check_modules(["Holpy.C05.Props"])
+        ctx.lean_check_modules(LEAN_MODULES)
     ctx.coverage["trusted_base"] += [
         "correspondence harness harness/props/c05.py (generators, wire format writer reading Term fields)",
         "the macro table is the live registry kernel.theory.global_macros after importing every module that mentions register_macro / "
